@@ -186,11 +186,69 @@ def _deleted_keys(m, fn):
     return keys
 
 
-def _dests(m, fname):
-    """dest name -> list of (action, const, default) for add_argument calls in builder fname (following helper calls)."""
+def _table_rows(m, loop):
+    """[{target name: ast value}] for `for a, b, c in <module-level constant tuple of tuples>` loops (else None)"""
+    it = loop.iter
+    val = m.module_assign(it.id) if isinstance(it, ast.Name) else (it if isinstance(it, (ast.Tuple, ast.List)) else None)
+    if not isinstance(val, (ast.Tuple, ast.List)):
+        return None
+    tg = loop.target
+    names = [e.id for e in tg.elts] if isinstance(tg, ast.Tuple) and all(isinstance(e, ast.Name) for e in tg.elts) else (
+        [tg.id] if isinstance(tg, ast.Name) else None)
+    if names is None:
+        return None
+    rows = []
+    for el in val.elts:
+        if len(names) == 1:
+            rows.append({names[0]: el})
+        elif isinstance(el, (ast.Tuple, ast.List)) and len(el.elts) == len(names):
+            rows.append(dict(zip(names, el.elts)))
+        else:
+            return None
+    return rows
+
+
+def _dests(m, fname, _seen=()):
+    """dest name -> list of (action, const, default) for add_argument calls in builder fname (following helper calls; calls in a
+    loop over a module-level constant table of (.., option, dict(...)) rows are expanded row by row)."""
     out = {}
     f = m.fn(fname)
+    parents = {}
+    for n in ast.walk(f):
+        for ch in ast.iter_child_nodes(n):
+            parents[ch] = n
     for c in ast.walk(f):
+        if isinstance(c, ast.Call) and isinstance(c.func, ast.Attribute) and c.func.attr == "add_argument" and any(
+                k.arg is None for k in c.keywords):
+            # add_argument(option, **keywords) driven by a table
+            lp = parents.get(c)
+            while lp is not None and not isinstance(lp, ast.For):
+                lp = parents.get(lp)
+            rows = _table_rows(m, lp) if lp is not None else None
+            if rows is None:
+                raise AnalysisError("%s: option names of an add_argument call are not constants (`%s`)" % (fname, norm(ast.unparse(c))[:80]))
+            for row in rows:
+                opts = [pyfront.const(row[a.id]) if isinstance(a, ast.Name) and a.id in row else pyfront.const(a) for a in c.args]
+                kws = {}
+                for k in c.keywords:
+                    if k.arg is None and isinstance(k.value, ast.Name) and k.value.id in row:
+                        dv = row[k.value.id]
+                        if isinstance(dv, ast.Call) and pyfront.call_name(dv) == "dict":
+                            kws.update({kk.arg: kk.value for kk in dv.keywords if kk.arg})
+                        elif isinstance(dv, ast.Dict):
+                            kws.update({pyfront.const(a_): b_ for a_, b_ in zip(dv.keys, dv.values)})
+                        else:
+                            raise AnalysisError("%s: keyword table entry not a dict" % fname)
+                    elif k.arg:
+                        kws[k.arg] = k.value
+                dest = pyfront.const(kws.get("dest")) if kws.get("dest") is not None else None
+                if dest is None:
+                    longs = [o for o in opts if o and o.startswith("--")]
+                    dest = longs[0][2:].replace("-", "_") if longs else None
+                if dest is None:
+                    raise AnalysisError("%s: destination of a table-driven add_argument not resolved" % fname)
+                out.setdefault(dest, []).append((pyfront.const(kws.get("action")) if kws.get("action") is not None else None, opts, kws.get("default")))
+            continue
         if isinstance(c, ast.Call) and isinstance(c.func, ast.Attribute) and c.func.attr == "add_argument":
             opts = [pyfront.const(a) for a in c.args]
             dest = pyfront.const(pyfront.kwarg(c, "dest"))
@@ -200,8 +258,10 @@ def _dests(m, fname):
                 if dest is None:
                     raise AnalysisError("%s: option names of an add_argument call are not constants (`%s`)" % (fname, norm(ast.unparse(c))[:80]))
             out.setdefault(dest, []).append((pyfront.const(pyfront.kwarg(c, "action")), opts, pyfront.kwarg(c, "default")))
-        elif isinstance(c, ast.Call) and isinstance(c.func, ast.Name) and c.func.id in m.functions and c.func.id.startswith("_add_"):
-            for k, v in _dests(m, c.func.id).items():
+        elif isinstance(c, ast.Call) and isinstance(c.func, ast.Name) and c.func.id in m.functions and c.func.id != fname \
+                and c.func.id.startswith("_") and c.func.id not in _seen:
+            # a private helper (that may add arguments to the parser it is given or builds)
+            for k, v in _dests(m, c.func.id, _seen + (fname, c.func.id)).items():
                 out.setdefault(k, []).extend(v)
     return out
 
@@ -250,7 +310,9 @@ def r2_option_table(repo=None):
         r.violation(m.rel, "_run_ls", "kwargs %s vs ilsdrf parameters %s" % (sorted(final), params), "ls options do not match the listing's "
                     "parameters", line=rl.lineno)
     # paired options store opposite constants into the same dest
-    allopts = _dests(m, "_add_include_group")
+    allopts = {k: v for k, v in _dests(m, "_build_cp_parser").items() if k and k.startswith("include_")}
+    if len(allopts) < 4:
+        raise AnalysisError("cp options: %d include_* destinations found, 4 confirmed" % len(allopts))
     for dest, rows in sorted(allopts.items()):
         acts = sorted(str(a) for a, o, d in rows)
         names = [o[0] for a, o, d in rows]
@@ -260,17 +322,20 @@ def r2_option_table(repo=None):
             if neg == "--no" + pos[2:]:
                 r.ok("%s option pair %s/%s -> %s" % (m.rel, pos, neg, dest), "store_true / store_false into the same destination")
             else:
-                r.violation(m.rel, "_add_include_group", "%s / %s -> %s" % (pos, neg, dest), "include/exclude options are crossed", line=None)
+                r.violation(m.rel, "_build_cp_parser", "%s / %s -> %s" % (pos, neg, dest), "include/exclude options are crossed", line=None)
         else:
-            r.violation(m.rel, "_add_include_group", "dest %s actions %s (%s)" % (dest, acts, names), "an include flag is not a "
+            r.violation(m.rel, "_build_cp_parser", "dest %s actions %s (%s)" % (dest, acts, names), "an include flag is not a "
                         "store_true/store_false pair on one destination", line=None)
-    for dest, rows in _dests(m, "_add_srcdest_arguments").items():
+    rec_rows = _dests(m, "_build_cp_parser").get("recursive")
+    if not rec_rows:
+        raise AnalysisError("cp options: no option with destination `recursive` (--only)")
+    for dest, rows in (("recursive", rec_rows),):
         if dest == "recursive":
             a, o, d = rows[0]
             if a == "store_false" and pyfront.const(d) is True and "--only" in o:
                 r.ok("%s option --only -> recursive" % m.rel, "store_false with default True")
             else:
-                r.violation(m.rel, "_add_srcdest_arguments", "--only", "--only must switch recursion off", line=None)
+                r.violation(m.rel, "_build_cp_parser", "--only", "--only must switch recursion off", line=None)
     r.guard(9)
     return r
 
